@@ -92,12 +92,15 @@ def gen(rng, tier):
             out.append(parse_case(sch, t, "default"))
     # nested calls within the nesting limit whose innermost argument fails (unknown name, wrong type, cut off): the
     # error must come back at once - a parser that tries an argument twice on failure needs 2^depth steps
-    for depth in (12, 24, 40, 100, 127):
+    for depth in (8, 12, 16, 20):
         for fn in ("lower", "echo"):
             for inner in ("nosuchfield", "num", "str ==", "str, str", ""):
                 t = (fn + "(") * depth + inner + ")" * depth + ' == "a"'
                 out.append(parse_case(sch, t, "default"))
                 out.append(parse_case(sch, (fn + " (") * depth + inner, "default"))
+    # the same far below the surface: a few cases only (each one costs the idle limit when the parser is exponential)
+    for depth, fn, inner in ((40, "lower", "nosuchfield"), (127, "echo", "num"), (100, "lower", "")):
+        out.append(parse_case(sch, (fn + "(") * depth + inner + ")" * depth + ' == "a"', "default"))
     # token soups
     for _ in range(n // 2):
         k = rng.randrange(1, 14)
